@@ -1123,6 +1123,67 @@ example : (embed ⟨.P, true, .png, false, false, true⟩ ⟨false, false⟩).to
 example : (embed ⟨.CMYK, false, .jpeg, true, false, true⟩ ⟨false, false⟩).toOption =
     some (⟨.CMYK, true, false, true⟩, ⟨"/DeviceCMYK", "/DCTDecode", false, false, true⟩) := by decide +kernel
 
+/-- `invert_colors`, whenever `rasterInit` succeeds: the normalised mode is CMYK and the opened file has APP14. -/
+theorem rasterInit_invert (s : Src) (o : Opts) (r : Raster) (h : rasterInit s o = .ok r) :
+    r.invert = ((normalise s.mode s.transparency).1 == .CMYK && s.app14) := by
+  unfold rasterInit at h
+  rcases hn : normalise s.mode s.transparency with ⟨m, c⟩
+  simp only [hn] at h
+  cases c <;> simp at h ⊢
+  · split_ifs at h <;> simp at h <;> subst h <;> simp_all
+  · split_ifs at h <;> simp at h <;> subst h <;> simp_all
+
+/-- **An Adobe CMYK JPEG is un-inverted exactly when its file says so, whatever `image-orientation` and the
+options did to it.**  The `/Decode [1 0 1 0 1 0 1 0]` array is on the image XObject iff the image goes the JPEG
+path, its normalised mode is CMYK and the *opened file* carries an APP14 marker; for a CMYK JPEG/MPO source that is
+`/Decode` ⇔ APP14, with `/DCTDecode` and `/DeviceCMYK`; and the decision is a function of what `Image.open`
+reports (mode, transparency, format, APP14) alone: rotation, missing source bytes, `optimize_images` and
+`jpeg_quality` cannot change it. -/
+theorem embed_decode_iff_app14 (s : Src) (o : Opts) (r : Raster) (x : XObject) (h : embed s o = .ok (r, x)) :
+    x.decodeInverted = (r.jpeg && (r.mode == .CMYK) && s.app14) ∧
+    (s.transparency = false → s.mode = .CMYK → (s.format = .jpeg ∨ s.format = .mpo) →
+      x.decodeInverted = s.app14 ∧ x.filter = "/DCTDecode" ∧ x.colorSpace = "/DeviceCMYK") ∧
+    (∀ s' : Src, s'.mode = s.mode → s'.transparency = s.transparency → s'.format = s.format → s'.app14 = s.app14 →
+      ∀ o' r' x', embed s' o' = .ok (r', x') → x'.decodeInverted = x.decodeInverted) := by
+  have key : ∀ (s : Src) (o : Opts) (r : Raster) (x : XObject), embed s o = .ok (r, x) →
+      x.decodeInverted = ((!(normalise s.mode s.transparency).2 && (s.format == .jpeg || s.format == .mpo)) &&
+        ((normalise s.mode s.transparency).1 == .CMYK) && s.app14) ∧
+      r.mode = (normalise s.mode s.transparency).1 ∧
+      r.jpeg = (!(normalise s.mode s.transparency).2 && (s.format == .jpeg || s.format == .mpo)) ∧
+      x = xObject r := by
+    intro s o r x h
+    unfold embed at h
+    rcases hr : rasterInit s o with e | r'
+    · simp [hr] at h
+    · simp [hr] at h
+      obtain ⟨rfl, rfl⟩ := h
+      obtain ⟨hm, hj⟩ := rasterInit_mode s o r' hr
+      have hi := rasterInit_invert s o r' hr
+      refine ⟨?_, hm, hj, rfl⟩
+      unfold xObject
+      split_ifs with hjp
+      · simp [hi, ← hj, hjp]
+      · simp [← hj, hjp]
+  obtain ⟨hd, hm, hj, hx⟩ := key s o r x h
+  refine ⟨by rw [hd, hm, hj], ?_, ?_⟩
+  · intro ht hmode hf
+    have hn : normalise s.mode s.transparency = (.CMYK, false) := by simp [normalise, ht, hmode]
+    have hjpeg : r.jpeg = true := by
+      rw [hj, hn]; rcases hf with hf | hf <;> simp [hf]
+    refine ⟨by rw [hd, hn]; rcases hf with hf | hf <;> simp [hf], ?_, ?_⟩
+    · rw [hx]; simp [xObject, hjpeg]
+    · rw [hx]; simp [xObject, hjpeg, hm, hn, colorSpaceOf]
+  · intro s' h1 h2 h3 h4 o' r' x' h'
+    obtain ⟨hd', _, _, _⟩ := key s' o' r' x' h'
+    rw [hd', hd, h1, h2, h3, h4]
+
+/-- Non-vacuity: Pillow's Adobe CMYK JPEG, untouched and rotated with `optimize_images`: `/Decode` both times. -/
+example : (embed ⟨.CMYK, false, .jpeg, true, false, true⟩ ⟨false, false⟩).toOption.map (fun p => p.2.decodeInverted) = some true ∧
+    (embed ⟨.CMYK, false, .jpeg, true, true, true⟩ ⟨true, false⟩).toOption.map (fun p => p.2.decodeInverted) = some true ∧
+    (embed ⟨.CMYK, false, .jpeg, false, true, true⟩ ⟨false, false⟩).toOption.map (fun p => p.2.decodeInverted) = some false := by
+  refine ⟨?_, ?_, ?_⟩ <;> decide +kernel
+
+
 end Embed
 
 /-! ## C13.image_properties_inherited — the regenerated `INHERITED` table -/
